@@ -125,13 +125,8 @@ func genC03(repo string, args []string) (string, error) {
 	}
 	rms := c03StmtSet(fset, rm)
 	add("renderMessage: captures sorted by name length, longest first", rms[normText("return len(capture[i].Name) > len(capture[j].Name)")] == 1)
-	add("renderMessage: capture chosen by prefix test on the text after `$`", rms[normText("if strings.HasPrefix(msg[dollarPos+1:], c.Name) {n = c.Node;nameLen = len(c.Name);break}")] == 1)
-	add("renderMessage: `$$` is the whole match", rms[normText("if strings.HasPrefix(msg[dollarPos+1:], \"$\") {n = m.Node();nameLen = 1} else {for _, c := range capture {if strings.HasPrefix(msg[dollarPos+1:], c.Name) {n = c.Node;nameLen = len(c.Name);break}}}")] == 1)
-	add("renderMessage: text is nodeText of the chosen node", rms[normText("text := rr.nodeText(n)")] == 1)
-	add("renderMessage: fixedText sees the template text after the name", rms[normText("text = rr.fixedText(text, n, msg[dollarPos+1+nameLen:])")] == 1)
-	add("renderMessage: an unknown `$` stays a `$`", rms[normText("result = append(result, '$')")] == 1)
-	add("renderMessage: scanning resumes after the name", rms[normText("i = dollarPos + len(\"$\") + nameLen")] == 1)
-	add("renderMessage: literal text between `$` is copied", rms[normText("result = append(result, msg[i:dollarPos]...)")] == 1 && rms[normText("result = append(result, msg[i:]...)")] == 1)
+	// the statements of the scanning loop are no longer compared as text: the loop is translated (c03loop.go) and proved
+	// equivalent to the model on every run
 
 	// ---- handleMatch / handleCommentMatch
 	hm := c03FindFunc(rf, "handleMatch")
